@@ -20,6 +20,13 @@ Inductive outcome (A : Type) := Val (a : A) | Exn (e : exn).
 Arguments Val {A} a.
 Arguments Exn {A} e.
 
+(* how a translated `for` loop over a list ends: the list ran out, a `return` inside the body, or an exception;
+   each with the state the loop carries *)
+Inductive loopres (R St : Type) := LContinue (st : St) | LReturn (r : R) (st : St) | LRaise (e : exn) (st : St).
+Arguments LContinue {R St} st.
+Arguments LReturn {R St} r st.
+Arguments LRaise {R St} e st.
+
 Definition is_exn (e e' : exn) : bool :=
   match e, e' with
   | KeyError, KeyError | IndexError, IndexError | AssertionError, AssertionError
